@@ -63,11 +63,11 @@ impl<M> OwnView for Sender<M> { open spec fn own(&self) -> Own { Own { none: fal
 impl<M> WeakSenderRest<M> { pub uninterp spec fn chan(&self) -> int; }
 impl<M> WeakSender<M> { pub open spec fn chan(&self) -> int { self.rest.chan() } }
 impl<M> WeakSender<M> {
-    // weak_sender.rs WeakSender::upgrade (proved in unit h_sender): a STRONG Sender in the hands of the caller for as long as it is kept
-    // (recorded as an event, so that code which is meant only to pass the weak handle on shows it when it starts holding the actor)
+    // weak_sender.rs WeakSender::upgrade (proved in unit h_sender): a STRONG Sender in the hands of the caller for as long as the binding
+    // lives; harmless if it is gone before the next await, a way to keep the subscriber alive if it is held across one (rule G7, `nohold`)
     #[verifier::external_body]
     pub fn upgrade(&self, Tracked(w): Tracked<&mut World>) -> (r: Option<Sender<M>>)
-        ensures r is Some ==> r->0.chan() == self.chan() && emits(old(w), final(w), Ev::Upgraded { chan: self.chan() }), r is None ==> same_world(old(w), final(w))
+        ensures r is Some ==> r->0.chan() == self.chan(), same_world(old(w), final(w))
     { unimplemented!() }
 }
 // weak_sender.rs `impl Clone for WeakSender` (proved in unit h_sender: weak, same actor)
@@ -121,3 +121,7 @@ pub open spec fn collected<T>(subs: Map<int, int>, keys: Set<int>, r: Seq<Sender
     &&& keys.subset_of(subs.dom()) && key_order(subs, keys).no_duplicates() && key_order(subs, keys).to_set() == keys
     &&& r.len() == key_order(subs, keys).len() && forall|i: int| #![auto] 0 <= i < r.len() ==> r[i].chan() == subs[key_order(subs, keys)[i]]
 }
+// rule G7: a strong sender obtained by an upgrade that is still in scope at an await of this unit (the marker's precondition is the obligation)
+pub fn hx_strong_handle_held_across_an_await()
+    requires false,                                                                            // @ob broker.no-strong-handle-to-a-subscriber-is-held-across-an-await C05,C09
+{ }
